@@ -193,7 +193,7 @@ func c11Poll(c *eng.Ctx, poll *ssa.Function) {
 			continue
 		}
 		if len(b.Instrs) > 0 {
-			if hit, _ := eng.Search(poll, b.Instrs[0], nil, func(x ssa.Instruction) bool { return x.Block() == loop.Header }, isFetch); hit != nil {
+			if hit, _ := eng.SearchBlock(poll, b, nil, func(x ssa.Instruction) bool { return x.Block() == loop.Header }, isFetch); hit != nil {
 				canFetch[b] = true
 			}
 		}
@@ -214,7 +214,7 @@ func c11Poll(c *eng.Ctx, poll *ssa.Function) {
 			// does this edge come back to the loop header (next iteration)?
 			back := s2 == loop.Header
 			if !back && len(s2.Instrs) > 0 {
-				if hit, _ := eng.Search(poll, s2.Instrs[0], nil, nil, func(x ssa.Instruction) bool { return x.Block() == loop.Header }); hit != nil {
+				if hit, _ := eng.SearchBlock(poll, s2, nil, nil, func(x ssa.Instruction) bool { return x.Block() == loop.Header }); hit != nil {
 					back = true
 				}
 			}
